@@ -5,7 +5,7 @@
    records holding slices; each operation of hdkeychain/extendedkey.go allocates / shares / carves
    exactly as the code does.  `run` is the heap machine; `trace` is the pure reference in which each
    pool slot holds the derivation term of its key and `eval` computes its value from that term alone. *)
-From BU Require Import Lib.Bytes HDHeap.HDHeap HDHeap.HeapLemmas HDHeap.HDHeapProofs HDHeap.HDToy HDHeap.HDFinding.
+From BU Require Import Lib.Bytes Gen.Xhdkeychain HDHeap.HDHeap HDHeap.HeapLemmas HDHeap.HDHeapProofs HDHeap.HDToy HDHeap.HDFinding HDHeap.HDAlloc.
 
 (* For every finite sequence of {NewMaster, NewKeyFromString, NewExtendedKey (fresh buffers), Child i,
    Neuter, SetNet, Zero, String, ECPubKey, ECPrivKey, Address} over a pool, with arbitrary functions for
@@ -46,6 +46,38 @@ Theorem C15_zero_erases : forall (D : deps) s k xk,
                x_depth xk' = 0 /\ x_num xk' = 0).
 Proof. exact zero_erases. Qed.
 Print Assumptions C15_zero_erases.
+
+(* (review round 2) The allocation reading of the Zero clause.  In every REACHABLE state, Zero on a key that has not
+   been zeroed leaves all-zero not only the slices but the whole ALLOCATIONS (heap buffers) in which the cached public
+   key, the key material and the chain code live -- NewMaster's key and chain code tile one 64-byte HMAC output, Child
+   (since /repo 593a81b), Neuter and NewExtendedKey give each an allocation of its own -- with ONE exception, stated
+   as the first disjunct: a key obtained from NewKeyFromString, whose key / chain code (and fingerprint, version) are
+   the ranges [45|46,78) and [13,45) of the one 82-byte decoded payload; there the field ranges are zero by
+   C15_zero_erases and the depth byte, child number, 0x00 key prefix and checksum (public data) remain.
+   The parent fingerprint is covered as a slice only (C15_zero_erases): for a derived key it is the first four bytes
+   of a fresh 20-byte HASH160 of the parent's PUBLIC key; the other 16 bytes remain. *)
+Theorem C15_zero_erases_allocations : forall (D : deps) ops k xk,
+  let s := fst (run D init ops) in
+  nth_error (st_keys s) k = Some xk -> x_key xk <> None ->
+  let h' := st_heap (fst (step D s (Zero k))) in
+  (forall a, x_pub xk = Some a -> allz (nth (s_id a) h' [])) /\
+  (lay_parsed xk \/
+   ((forall a, x_key xk = Some a -> allz (nth (s_id a) h' [])) /\ (forall a, x_cc xk = Some a -> allz (nth (s_id a) h' [])))).
+Proof. exact zero_erases_allocations. Qed.
+Print Assumptions C15_zero_erases_allocations.
+
+(* With Child as it was before 593a81b (chain code = ilr[32:], a slice of the 64-byte HMAC output) the history
+   NewMaster; Child 0 2^31; Zero 1 leaves Il in the allocation that holds the child's chain code: the slice reads
+   all-zero, the allocation does not, and its first 32 bytes are Il = HMAC(c_par, 0x00 || k_par || ser32(2^31))[:32]. *)
+Theorem C15_zero_allocation_refuted_old :
+  exists xk a, nth_error (st_keys (fst (child_old toy (fst (new_master toy init seed16 0)) 0 2147483648))) 1 = Some xk /\
+    x_cc xk = Some a /\
+    allz (rd (st_heap old_child_state) a) /\
+    ~ allz (nth (s_id a) (st_heap old_child_state) []) /\
+    firstn 32 (nth (s_id a) (st_heap old_child_state) []) =
+      firstn 32 (toy_hmac (skipn 32 (toy_hmac c_masterKey seed16)) (child_data true (firstn 32 (toy_hmac c_masterKey seed16)) 2147483648)).
+Proof. exact zero_allocation_refuted_old. Qed.
+Print Assumptions C15_zero_allocation_refuted_old.
 
 (* The finding (repaired in /repo by 4c97b03): against a verbatim model of the OLD Neuter the history
    NewMaster; Neuter 0; String 1; Zero 0; String 1 yields an observation (index 4) that differs from
